@@ -158,6 +158,14 @@ class World(object):
             ("parse truncated", lambda: self._call(lambda: self.parse_smt("(assert (and p (< x y)))(assert (or q"), "terms")),
             ("parse unknown op", lambda: self._call(lambda: self.parse_smt("(push 1)(assert (foo p q))(assert p)"), "terms")),
             ("hr parse error", lambda: self._call(lambda: self.hr.parse("(x + ) <= y"))),
+            # failing scripts that have already changed the parser's state when they fail: a logic under which
+            # numerals are Reals, a definition, an open let binding
+            ("parse LRA script, unknown command", lambda: self._call(lambda: self.parser.get_script(io.StringIO(
+                "(set-logic QF_LRA)(declare-fun rr0 () Real)(assert (< rr0 1))(assert (= rr0 (/ 1 2)))(frobnicate rr0)")))),
+            ("parse define-fun, truncated", lambda: self._call(lambda: self.parser.get_script(io.StringIO(
+                "(declare-fun p () Bool)(define-fun one () Int 1)(define-fun x () Bool (not p))(assert (and x")))),
+            ("parse undefined function inside let", lambda: self._call(lambda: self.parser.get_script(io.StringIO(
+                "(declare-fun p () Bool)(assert (let ((y (not p)) (one 7)) (and y (undefined_fn one))))")))),
         ]
         return calls
 
@@ -182,7 +190,7 @@ class World(object):
             ("to_smtlib dag phi1", lambda: self._call(lambda: to_smtlib(self.phi1, daggify=True), "text"), False),
             ("to_smtlib tree phi4", lambda: self._call(lambda: to_smtlib(self.phi4, daggify=False), "text"), False),
             ("serialize phi3", lambda: self._call(lambda: self.phi3.serialize(), "text"), False),
-            ("parse good script", lambda: self._call(lambda: self.parse_smt("(assert (and p (< x y)))(push 1)(assert (= (f x) y))(pop 1)(assert (or q p))"), "terms"), False),
+            ("parse good script", lambda: self._call(lambda: self.parse_smt("(assert (and p (< x (+ y 1))))(push 1)(assert (= (f x) (* 2 y)))(pop 1)(assert (or q p))"), "terms"), False),
             ("And(p,x) again", lambda: self._call(lambda: m.And(p, x)), False),
             ("hr parse", lambda: self._call(lambda: self.hr.parse("(x + 1) <= y & p")), True),
             ("nnf phi2", lambda: self._call(lambda: rw.nnf(self.phi2, self.env)), True),
